@@ -1,6 +1,332 @@
-(* RTLoopFacts.v — lemmas about the real-time loop model (RTLoop.v). *)
+(* RTLoopFacts.v — lemmas about the real-time loop model (RTLoop.v): invariants of
+   every run, by induction on the label list. *)
 Require Import Base RTLoop.
 From Coq Require Import ZifyBool.
 
+Local Arguments Z.max : simpl never.
+Local Arguments Z.min : simpl never.
+Local Arguments Z.add : simpl never.
+Local Arguments Z.sub : simpl never.
+Local Arguments Z.leb : simpl never.
+Local Arguments Z.ltb : simpl never.
+Local Arguments Z.eqb : simpl never.
+Local Arguments target_of : simpl never.
+Local Arguments eval_time : simpl never.
+Local Arguments advance_result : simpl never.
+Local Arguments drain_cut : simpl never.
+Local Arguments pend_add : simpl never.
+Local Arguments pend_after : simpl never.
+Local Arguments pend_min : simpl never.
+Local Arguments sched_eff : simpl never.
+Local Arguments req_reads : simpl never.
+
+(* validate_times: end_time after start_time; the builder's default end is MAX_ET *)
+Definition wfc (c : cfg) : Prop := c_start c < c_end c /\ c_end c <= MAX_DT.
+
+(* ------------------------------------------------------------------ *)
+(* the pending set *)
+Lemma zmin_list_le : forall d l p, In p l -> zmin_list d l <= p.
+Proof. induction l as [|x r IH]; simpl; intros p H; [tauto|]. destruct H as [->|H]; [lia|]. specialize (IH _ H). lia. Qed.
+
+Lemma zmin_list_le_d : forall d l, zmin_list d l <= d.
+Proof. induction l as [|x r IH]; simpl; lia. Qed.
+
+Lemma zmin_list_lb : forall d l b, b <= d -> (forall p, In p l -> b <= p) -> b <= zmin_list d l.
+Proof.
+  induction l as [|x r IH]; simpl; intros b Hd H; [lia|].
+  assert (b <= x) by (apply H; auto). assert (b <= zmin_list d r) by (apply IH; auto). lia.
+Qed.
+
+Lemma pend_min_le : forall l p, In p l -> pend_min l <= p.
+Proof. intros; apply zmin_list_le; auto. Qed.
+
+Lemma pend_add_in : forall x l p, In p (pend_add x l) <-> p = x \/ In p l.
+Proof.
+  intros x l p; unfold pend_add. destruct (existsb (Z.eqb x) l) eqn:E.
+  - apply existsb_exists in E. destruct E as [y [Hy Hxy]]. assert (x = y) by lia. subst y.
+    split; [tauto|]. intros [->|H]; auto.
+  - simpl. split; intros [H|H]; auto.
+Qed.
+
+Lemma pend_after_in : forall t l p, In p (pend_after t l) <-> In p l /\ t < p.
+Proof. intros; unfold pend_after; rewrite filter_In. cbv beta. split; intros [H1 H2]; split; auto; lia. Qed.
+
+(* the target is below every pending time and below end, and above any common lower bound *)
+Lemma target_le_end : forall c s, target_of c s <= c_end c.
+Proof. intros; unfold target_of; lia. Qed.
+
+Lemma target_le_pend : forall c s p, c_end c <= MAX_DT -> In p (pend s) -> target_of c s <= p.
+Proof.
+  intros c s p Hm H. unfold target_of. pose proof (pend_min_le _ _ H).
+  destruct ((pend_min (pend s) =? MAX_DT) || (c_end c <=? pend_min (pend s))) eqn:E; lia.
+Qed.
+
+Lemma target_lb : forall c s b, c_end c <= MAX_DT -> b <= c_end c -> (forall p, In p (pend s) -> b <= p) -> b <= target_of c s.
+Proof.
+  intros c s b Hm Hb H. unfold target_of.
+  destruct ((pend_min (pend s) =? MAX_DT) || (c_end c <=? pend_min (pend s))) eqn:E; [lia|].
+  assert (b <= pend_min (pend s)); [|lia].
+  unfold pend_min. apply zmin_list_lb; [lia | auto].
+Qed.
+
+(* ------------------------------------------------------------------ *)
+(* NodeScheduler::schedule *)
+Lemma sched_abs_started_gt : forall now w when onwall e, sched_abs true now w when onwall = Some e -> now < e.
+Proof.
+  unfold sched_abs, MIN_TD; intros now w when onwall e H. destruct onwall.
+  - destruct (when <=? Z.max now w) eqn:E; inversion H; subst; lia.
+  - destruct (when <=? now) eqn:E; inversion H; subst; lia.
+Qed.
+
+Lemma sched_abs_start_ge : forall now w when onwall e, sched_abs false now w when onwall = Some e -> now <= e.
+Proof.
+  unfold sched_abs; intros now w when onwall e H. destruct onwall.
+  - destruct (when <? Z.max now w) eqn:E; inversion H; subst; lia.
+  - destruct (when <? now) eqn:E; inversion H; subst; lia.
+Qed.
+
+Lemma sched_eff_started_gt : forall now k a w1 w2 e, sched_eff true now k a w1 w2 = Some e -> now < e.
+Proof.
+  unfold sched_eff; intros now k a w1 w2 e H.
+  destruct (k =? 1); [eapply sched_abs_started_gt; eauto|].
+  destruct (k =? 2); [eapply sched_abs_started_gt; eauto|].
+  destruct (k =? 3); [eapply sched_abs_started_gt; eauto|].
+  destruct (k =? 4); [eapply sched_abs_started_gt; eauto|discriminate].
+Qed.
+
+Lemma sched_eff_start_ge : forall now k a w1 w2 e, sched_eff false now k a w1 w2 = Some e -> now <= e.
+Proof.
+  unfold sched_eff; intros now k a w1 w2 e H.
+  destruct (k =? 1); [eapply sched_abs_start_ge; eauto|].
+  destruct (k =? 2); [eapply sched_abs_start_ge; eauto|].
+  destruct (k =? 3); [eapply sched_abs_start_ge; eauto|].
+  destruct (k =? 4); [eapply sched_abs_start_ge; eauto|discriminate].
+Qed.
+
+(* a wall-clock alarm is never ignored; one that is already due is entered for
+   max(now + MIN_TD, wall), which is after the current cycle *)
+Lemma wall_alarm_never_dropped : forall started now w when,
+  exists e, sched_abs started now w when true = Some e.
+Proof.
+  intros started now w when; unfold sched_abs. destruct started.
+  - destruct (when <=? Z.max now w); eauto.
+  - destruct (when <? Z.max now w); eauto.
+Qed.
+
+Lemma wall_alarm_due : forall now w when,
+  when <= Z.max now w -> sched_abs true now w when true = Some (Z.max (now + MIN_TD) w).
+Proof.
+  intros now w when H; unfold sched_abs, MIN_TD. destruct (when <=? Z.max now w) eqn:E; [|lia]. f_equal; lia.
+Qed.
+
+Lemma wall_alarm_future : forall now w when,
+  Z.max now w < when -> sched_abs true now w when true = Some when.
+Proof. intros now w when H; unfold sched_abs. destruct (when <=? Z.max now w) eqn:E; [lia|auto]. Qed.
+
+(* ------------------------------------------------------------------ *)
+(* the cycle time rule *)
 Lemma eval_time_le_target : forall tgt w prev, eval_time tgt w prev <= tgt.
 Proof. intros; unfold eval_time; lia. Qed.
+
+Lemma eval_time_not_early : forall tgt w prev, eval_time tgt w prev <= Z.max w (prev + MIN_TD).
+Proof. intros; unfold eval_time; lia. Qed.
+
+Lemma eval_time_advances : forall tgt w prev, prev + MIN_TD <= tgt -> prev + MIN_TD <= eval_time tgt w prev.
+Proof. intros; unfold eval_time; lia. Qed.
+
+(* ------------------------------------------------------------------ *)
+(* what is true of one recorded advance *)
+Definition cyc_ok (c : cfg) (a : cyc) : Prop :=
+  ctgt a <= c_end c /\
+  (cw a < ctgt a -> cwk a = true) /\
+  (ct a = eval_time (ctgt a) (cw a) (cprev a) \/
+   (ct a = c_end c /\ c_end c <= cw a /\ eval_time (ctgt a) (cw a) (cprev a) <= cprev a + MIN_TD)).
+
+(* the recorded advances, newest first: each starts from the time the one before produced *)
+Fixpoint chain (c : cfg) (l : list cyc) : Prop :=
+  match l with
+  | [] => True
+  | a :: rest =>
+      cyc_ok c a /\
+      match rest with
+      | [] => cprev a = c_start c /\ c_start c <= ct a
+      | b :: _ => cprev a = ct b /\ ct b < ct a
+      end /\ chain c rest
+  end.
+
+(* below every pending time and every target outside an evaluation *)
+Definition lowb (s : st) : Z := match cycles s with [] => ev s | _ => ev s + MIN_TD end.
+
+Definition adv_inv (c : cfg) (s : st) (tgt : Z) : Prop :=
+  tgt = target_of c s /\ (forall p, In p (pend s) -> lowb s <= p) /\ ev s < c_end c /\ cut s = false.
+
+Definition phase_inv (c : cfg) (s : st) : Prop :=
+  match ph s with
+  | PStart => cycles s = [] /\ (forall p, In p (pend s) -> ev s <= p) /\ cut s = false
+  | PTop => (forall p, In p (pend s) -> lowb s <= p) /\ ev s < c_end c /\ cut s = false
+  | PRead tgt => adv_inv c s tgt
+  | PWait tgt _ => adv_inv c s tgt
+  | PCheck tgt w _ brk => adv_inv c s tgt /\ (brk = true -> wake_requested s = true)
+  | PWoke tgt b => adv_inv c s tgt /\ (b = true -> wake_requested s = true)
+  | PAdv prev t =>
+      t = ev s /\ (exists a rest, cycles s = a :: rest /\ cprev a = prev) /\
+      (cut s = false -> forall p, In p (pend s) -> t <= p) /\ (cut s = true -> t = c_end c)
+  | PEvalPre t => t = ev s /\ t < c_end c /\ cycles s <> [] /\ (forall p, In p (pend s) -> t <= p) /\ cut s = false
+  | PEval t => t = ev s /\ t < c_end c /\ cycles s <> [] /\ (forall p, In p (pend s) -> t <= p) /\ cut s = false
+  | PDone => True
+  end.
+
+Definition Inv (c : cfg) (s : st) : Prop :=
+  phase_inv c s /\
+  ev s = match cycles s with [] => c_start c | a :: _ => ct a end /\
+  chain c (cycles s).
+
+Lemma Inv_init : forall c w0, Inv c (init c w0).
+Proof. intros; unfold Inv, init, phase_inv; simpl. repeat split; auto; intros; tauto. Qed.
+
+Lemma adv_target_lb : forall c s tgt, c_end c <= MAX_DT -> adv_inv c s tgt -> lowb s <= tgt /\ tgt <= c_end c /\ forall p, In p (pend s) -> tgt <= p.
+Proof.
+  intros c s tgt Hm (-> & Hp & He & _). split; [|split].
+  - apply target_lb; auto. unfold lowb, MIN_TD. destruct (cycles s); lia.
+  - apply target_le_end.
+  - intros; apply target_le_pend; auto.
+Qed.
+
+Ltac inv_some H := first [discriminate H | injection H as H; match type of H with _ = ?v => subst v end].
+
+(* requests keep the lower bound *)
+Lemma do_req_pend : forall st0 s k a w1 w2 e s' b,
+  do_req st0 s k a w1 w2 e = Some s' ->
+  (forall e', sched_eff st0 (ev s) k a w1 w2 = Some e' -> b <= e') ->
+  (forall p, In p (pend s) -> b <= p) ->
+  (forall p, In p (pend s') -> b <= p) /\
+  ev s' = ev s /\ push s' = push s /\ stop s' = stop s /\ consec s' = consec s /\ ph s' = ph s /\
+  notif s' = notif s /\ cycles s' = cycles s /\ cut s' = cut s /\ wall s <= wall s'.
+Proof.
+  intros st0 s k a w1 w2 e s' b H He Hp. unfold do_req in H.
+  set (okw := if req_reads k =? 0 then true else if req_reads k =? 1 then wall s <=? w1 else (wall s <=? w1) && (w1 <=? w2)) in *.
+  destruct okw eqn:Eo; simpl in H; [|discriminate].
+  assert (Hw : wall s <= (if req_reads k =? 0 then wall s else if req_reads k =? 1 then w1 else w2)).
+  { subst okw. destruct (req_reads k =? 0); [lia|]. destruct (req_reads k =? 1); lia. }
+  destruct (sched_eff st0 (ev s) k a w1 w2) as [e'|] eqn:Es.
+  - destruct (e' =? e) eqn:Ee; [|discriminate]. inv_some H. simpl. repeat split; auto.
+    intros p Hin. apply pend_add_in in Hin. destruct Hin as [->|Hin]; auto.
+  - destruct (e =? 0); [|discriminate]. inv_some H. simpl. repeat split; auto.
+Qed.
+
+Lemma Inv_step : forall c s l s', wfc c -> Inv c s -> gstep c s l = Some s' -> Inv c s'.
+Proof.
+  intros c s l s' [Hse Hem] (HP & HE & HC) H.
+  destruct s as [ev0 pend0 push0 stop0 consec0 ph0 wall0 notif0 cycles0 cut0].
+  unfold gstep in H. destruct (step c _ l) as [s1|] eqn:Hs; [|discriminate].
+  unfold step in Hs. destruct (is_other l) eqn:Ho.
+  - (* another thread: flags and the notify count only *)
+    assert (s' = s1) by (simpl in H; destruct ph0; destruct l; simpl in Ho; try discriminate; inv_some H; auto).
+    subst s1. clear H.
+    unfold Inv, phase_inv, adv_inv, lowb, wake_requested in *; simpl in *.
+    destruct l; simpl in Ho; try discriminate; simpl in Hs.
+    + destruct (lock_held ph0); [discriminate|]. destruct stop0; inv_some Hs; simpl; auto.
+      destruct ph0; simpl in *; intuition.
+    + destruct (0 <? notif0); inv_some Hs; simpl. destruct ph0; simpl in *; intuition.
+    + destruct (lock_held ph0); [discriminate|]. inv_some Hs; simpl.
+      destruct ph0; simpl in *; intuition; rewrite Bool.orb_true_r; auto.
+    + destruct (0 <? notif0); inv_some Hs; simpl. destruct ph0; simpl in *; intuition.
+  - 
+    unfold Inv, phase_inv in *; simpl in *.
+    destruct ph0; destruct l; simpl in Ho; try discriminate; simpl in Hs; try discriminate.
+    + (* PStart, request *)
+      inv_some H. destruct HP as (Hc & Hp & Hcut).
+      destruct (do_req_pend false _ _ _ _ _ _ _ ev0 Hs) as (Hp' & E1 & E2 & E3 & E4 & E5 & E6 & E7 & E8 & E9).
+      { intros e' He'. apply sched_eff_start_ge in He'. simpl in He'. exact He'. }
+      { exact Hp. }
+      simpl in *. rewrite E5, E7, E8, E1. subst cycles0. simpl. repeat split; auto.
+    + (* PStart, clock read *)
+      destruct (wall0 <=? w); inv_some Hs. inv_some H. simpl. auto.
+    + inv_some Hs. inv_some H. simpl. auto.
+    + (* PStart -> PTop *)
+      inv_some Hs. inv_some H. simpl. destruct HP as (Hc & Hp & Hcut). subst cycles0. unfold lowb; simpl.
+      repeat split; auto; try (simpl in HE; lia).
+    + (* PTop, LTop *)
+      destruct stop0; inv_some Hs. inv_some H. simpl. destruct HP as (Hp & He & Hcut).
+      unfold adv_inv; simpl. repeat split; auto.
+    + (* PTop, LExit *)
+      destruct stop0; inv_some Hs. inv_some H. simpl. auto.
+    + (* PRead, LRead *)
+      destruct (wall0 <=? w); inv_some Hs. inv_some H. simpl. unfold adv_inv, lowb in *; simpl in *.
+      repeat split; try tauto. discriminate.
+    + (* PCheck, LWaitBefore *)
+      destruct (negb brk && (w <? tgt) && negb (wake_requested _)); inv_some Hs. inv_some H. simpl.
+      unfold adv_inv, lowb in *; simpl in *. tauto.
+    + (* PCheck, LAdv: the cycle time *)
+      destruct HP as (HA & Hbrk). pose proof (adv_target_lb _ _ _ Hem HA) as (Hlb & Hte & Htp).
+      destruct HA as (Etgt & Hp & Hev & Hcut). simpl in *. subst cut0.
+      match type of Hs with (if ?b then _ else _) = _ => destruct b eqn:Ewait end; [discriminate|].
+      destruct (t =? advance_result c _ tgt w) eqn:Et; inv_some Hs. inv_some H. simpl.
+      assert (Et' : t = advance_result c (mkSt ev0 pend0 push0 stop0 consec0 (PCheck tgt w locked brk) wall0 notif0 cycles0 false) tgt w) by lia.
+      clear Et. unfold advance_result in Et'; simpl in Et'.
+      set (s0 := mkSt ev0 pend0 push0 stop0 consec0 (PCheck tgt w locked brk) wall0 notif0 cycles0 false) in *.
+      assert (Hwk : w < tgt -> wake_requested s0 = true).
+      { intros Hlt. destruct brk; [apply Hbrk; auto|]. simpl in Ewait.
+        destruct (wake_requested s0); auto. simpl in Ewait. lia. }
+      unfold lowb in Hlb; simpl in Hlb.
+      assert (Hlow : (match cycles0 with [] => ev0 | _ => ev0 + MIN_TD end) <= t /\ t <= c_end c /\
+                     (drain_cut c s0 tgt w = false -> t = eval_time tgt w ev0) /\
+                     (drain_cut c s0 tgt w = true -> t = c_end c /\ c_end c <= w /\ eval_time tgt w ev0 <= ev0 + MIN_TD)).
+      { unfold drain_cut in *; simpl in *.
+        destruct ((c_end c <=? w) && (eval_time tgt w ev0 <=? ev0 + MIN_TD) && (MAX_DRAIN <=? consec0)) eqn:Ed.
+        - subst t. unfold MIN_TD in *. repeat split; try lia; try discriminate; destruct cycles0; lia.
+        - subst t. unfold eval_time, MIN_TD in *. repeat split; try lia; try discriminate; destruct cycles0; lia. }
+      destruct Hlow as (Hl1 & Hl2 & Hl3 & Hl4).
+      repeat split; auto.
+      * eauto.
+      * intros Hc p Hin. destruct (drain_cut c s0 tgt w) eqn:Ed; [discriminate|].
+        rewrite (Hl3 eq_refl). specialize (Htp _ Hin). pose proof (eval_time_le_target tgt w ev0). lia.
+      * intros Hc. destruct (drain_cut c s0 tgt w) eqn:Ed; [|discriminate]. apply Hl4; auto.
+      * unfold cyc_ok; simpl. repeat split; auto.
+        destruct (drain_cut c s0 tgt w) eqn:Ed; [right; apply Hl4; auto | left; apply Hl3; auto].
+      * destruct cycles0 as [|b r]; simpl in *; unfold MIN_TD in *; split; try lia.
+    + (* PWait, LWaitAfter *)
+      inv_some Hs. inv_some H. simpl. unfold adv_inv, lowb in *; simpl in *. tauto.
+    + (* PWoke, LRead *)
+      destruct (wall0 <=? w); inv_some Hs. inv_some H. simpl. unfold adv_inv, lowb in *; simpl in *. tauto.
+    + (* PAdv, LEvalBegin *)
+      match type of Hs with (if ?b then _ else _) = _ => destruct b eqn:Ebrk end; [discriminate|].
+      destruct (t0 =? t) eqn:Et; inv_some Hs. inv_some H. simpl.
+      destruct HP as (Hev & (a & rest & Hcy & Hpr) & Hpc & Hcc).
+      assert (t < c_end c) by lia.
+      assert (cut0 = false) by (destruct cut0; auto; specialize (Hcc eq_refl); lia).
+      subst cut0. repeat split; auto. rewrite Hcy; discriminate.
+    + (* PAdv, LExit *)
+      match type of Hs with (if ?b then _ else _) = _ => destruct b end; inv_some Hs. inv_some H. simpl. auto.
+    + (* PEvalPre, LNode *)
+      destruct push0; inv_some Hs. inv_some H. simpl. tauto.
+    + (* PEvalPre, LPushNode *)
+      destruct push0; inv_some Hs. inv_some H. simpl. tauto.
+    + (* PEvalPre, LEvalEnd *)
+      destruct push0; inv_some Hs. inv_some H. simpl. destruct HP as (Hev & Hte & Hcy & Hp & Hcut).
+      unfold lowb; simpl. repeat split; auto; try lia.
+      intros p Hin. apply pend_after_in in Hin. destruct cycles0; [tauto|]. unfold MIN_TD. lia.
+    + (* PEval, request *)
+      inv_some H. destruct HP as (Hev & Hte & Hcy & Hp & Hcut).
+      destruct (do_req_pend true _ _ _ _ _ _ _ t Hs) as (Hp' & E1 & E2 & E3 & E4 & E5 & E6 & E7 & E8 & E9).
+      { intros e' He'. apply sched_eff_started_gt in He'. simpl in He'. lia. }
+      { exact Hp. }
+      simpl in *. rewrite E5, E7, E8, E1. repeat split; auto.
+    + destruct (wall0 <=? w); inv_some Hs. inv_some H. simpl. tauto.
+    + inv_some Hs. inv_some H. simpl. tauto.
+    + (* PEval, LEvalEnd *)
+      inv_some Hs. inv_some H. simpl. destruct HP as (Hev & Hte & Hcy & Hp & Hcut).
+      unfold lowb; simpl. repeat split; auto; try lia.
+      intros p Hin. apply pend_after_in in Hin. destruct cycles0; [tauto|]. unfold MIN_TD. lia.
+Qed.
+
+Lemma Inv_exec : forall c ls s s', wfc c -> Inv c s -> exec c s ls = Some s' -> Inv c s'.
+Proof.
+  induction ls as [|l r IH]; simpl; intros s s' Hw HI H; [inv_some H; auto|].
+  destruct (gstep c s l) as [s1|] eqn:E; [|discriminate]. apply (IH s1 s' Hw); [eapply Inv_step; eauto | exact H].
+Qed.
+
+Definition run (c : cfg) (w0 : Z) (ls : list label) (s : st) : Prop := exec c (init c w0) ls = Some s.
+
+Lemma run_Inv : forall c w0 ls s, wfc c -> run c w0 ls s -> Inv c s.
+Proof. intros; eapply Inv_exec; eauto using Inv_init. Qed.
